@@ -35,7 +35,7 @@ type DirConfig struct {
 	// EmptyReads > 0: a Read that has data available returns (0, nil) with
 	// probability 1/EmptyReads instead, never twice in a row
 	EmptyReads int
-	Faults  []Fault
+	Faults     []Fault
 }
 
 // Fault kinds.
